@@ -23,8 +23,6 @@ def h_tuple(a, b):
     return (a, b)[1]
 def h_attr(o):
     return o.x + o.y
-def h_inner(a):
-    return [a + k.pt for k in DATA[0].jets] if False else a
 def h_shadow(a):
     return (lambda a: a + 1)(a * 2)
 def h_shadow2(a, seq):
@@ -46,6 +44,20 @@ def h_jets(e):
     return e.jets
 def h_sel(seq, w):
     return seq.Select(lambda j: j.pt * w)
+H_OFF = -2
+H_SCALE = 3
+def h_glob(a):
+    return a * H_SCALE + H_OFF
+def h_glob2(a):
+    return h_glob(a) - H_OFF
+def _mk_closure(k):
+    def h_clo(a):
+        return a + k
+    return h_clo
+h_clo5 = _mk_closure(5)
+h_clo7 = _mk_closure(7)
+def h_rec(a):
+    return a if a < 1 else h_rec(a - 1)
 l_inc = lambda a: a + 1
 l_two = lambda a, b: a - b
 l_id = lambda a: a
@@ -61,7 +73,7 @@ CASES = [
     "lambda e: h_two(e.x, b=e.y)", "lambda e: h_swap(e.x, e.y)", "lambda x: h_swap(3, x.x)",
     "lambda x: h_swap(x.y, x.x)", "lambda y: h_swap(y.x, y.y)", "lambda a: h_two(a.y, a.x)",
     "lambda b: h_two(b.x, b.y)", "lambda e: h_cond(e.x, e.y)", "lambda e: h_tuple(e.x, e.y)",
-    "lambda e: h_attr(e)", "lambda o: h_attr(o)", "lambda e: h_inner(e.x)",
+    "lambda e: h_attr(e)", "lambda o: h_attr(o)",
     "lambda e: h_shadow(e.x)", "lambda a: h_shadow(a.x)",
     "lambda e: h_shadow2(e.x, e.jets)", "lambda a: h_shadow2(a.x, a.jets)",
     "lambda e: h_nested_same(e.y, e.jets)", "lambda j: h_nested_same(j.y, j.jets)",
@@ -77,6 +89,8 @@ CASES = [
     "lambda a: l_two(a.y, a.x)", "lambda e: h_inc(e.x) - h_inc(7)", "lambda e: h_two(e.x, 2) - h_two(7, e.x)",
     "lambda e: h_two(h_two(e.x, e.y), h_two(e.y, e.x))", "lambda e: [h_inc(j.pt) for j in e.jets]",
     "lambda e: h_multi(e.x)",
+    "lambda e: h_glob(e.x)", "lambda e: h_glob2(e.y) + h_glob(e.x)", "lambda e: h_clo5(e.x) - h_clo7(e.y)",
+    "lambda e: e.jets.Select(lambda j: h_glob(j.pt))", "lambda H_OFF: h_glob(H_OFF.x)",
 ]
 
 
